@@ -2,7 +2,9 @@ SPECIFICATION Spec
 CONSTANTS
   Theme = "sig"
   MaxFd = 3
-  MaxH = 1
+  MaxLen = 6
+  MaxPipe = 2
+  MaxH = 2
 VIEW view
 CONSTRAINT Bounded
 INVARIANT TypeOK
